@@ -43,13 +43,42 @@ def r1_markers(ctx):
                     break
             else:
                 ctx.ok("C15.R1", loc(fi), f"@batchable {name}: decomposable")
-    # also functions marked by assignment / call elsewhere
-    m = repo.module(BK)
-    for n in ast.walk(m.tree):
-        if isinstance(n, ast.Call) and unparse(n.func).endswith("batchable") and n.args and isinstance(n.args[0], (ast.Name, ast.Attribute)):
-            nm = unparse(n.args[0]).split(".")[-1]
-            if nm in NON_DECOMPOSABLE:
-                ctx.violation("C15.R1", BK, f"src/earthkit/workflows/backends/__init__.py:{n.lineno}", f"batchable({nm})", f"{nm} is marked batchable by a call")
+    # also functions marked by a call at module level (batchable(Backend.x), a loop over a table of names, ...): the module's top-level
+    # code is evaluated abstractly and every call of `batchable` is read off its effect trace
+    from ..interp import module_globals
+    from ..terms import BoundMethod, FuncRef
+    effs = []
+    module_globals(repo, BK, effects=effs)
+    for e in effs:
+        if e.kind != "call" or not (e.data.get("name") or "").split(".")[-1] == "batchable" or not e.data["args"]:
+            continue
+        a0 = e.data["args"][0]
+        nm = None
+        if isinstance(a0, (FuncRef, BoundMethod)) and getattr(a0, "fi", None) is not None:
+            nm = a0.fi.name
+        elif isinstance(a0, Sub) and isinstance(a0.index, str):
+            nm = a0.index
+        elif isinstance(a0, App) and a0.fname == "getattr" and len(a0.args) >= 2 and isinstance(a0.args[1], str):
+            nm = a0.args[1]
+        where = f"src/earthkit/workflows/backends/__init__.py:{e.lineno}"
+        if nm is None:
+            ctx.undecided("C15.R1", where, f"batchable(...) applied at module level to {vkey(a0)[:80]}: cannot tell which operation is marked")
+            continue
+        if nm in marked:
+            continue
+        marked.append(nm)
+        fi2 = ci.methods.get(nm)
+        called = set()
+        if fi2 is not None:
+            called = {c.func.attr for c in walk_scope(fi2.node) if isinstance(c, ast.Call) and isinstance(c.func, ast.Attribute)
+                      and isinstance(c.func.value, ast.Call) and unparse(c.func.value.func) == "array_module"}
+        bad = [x for x in {nm} | called if x in NON_DECOMPOSABLE]
+        if bad:
+            ctx.violation("C15.R1", fi2.qual if fi2 else BK, where, f"@batchable {nm}",
+                          f"Backend.{nm} is marked batchable (by a call at module level) but computes '{bad[0]}', which does not satisfy f(f(b1),…,f(bk)) = f(all) "
+                          f"({NON_DECOMPOSABLE[bad[0]]}): a batched reduce silently returns a wrong value")
+        else:
+            ctx.ok("C15.R1", where, f"batchable({nm}) at module level: decomposable")
     ctx.floor("C15.R1.marked", len(marked), 4)
 
 
@@ -82,7 +111,9 @@ def r2_siblings(ctx):
         ar = [p.exit[1] for p in ip.explore(a) if p.exit[0] == "return"]
         xr_ = [p.exit[1] for p in ip.explore(x) if p.exit[0] == "return"]
         if op in REDUCTIONS:
-            okk = len(ar) == 1 and isinstance(ar[0], App) and ar[0].fname.endswith("_xp_multi_args") and ar[0].args and ar[0].args[0] == op
+            okk = bool(ar) and all(isinstance(t_, App) and (
+                (t_.fname.endswith("_xp_multi_args") and t_.args and t_.args[0] == op)
+                or (isinstance(t_.fn, Attr) and t_.fn.attr == op and "array_namespace" in vkey(t_.fn.base))) for t_ in ar)  # helper inlined: xp.<op>(...)
             if not okk:
                 ctx.violation("C15.R2", a.qual, loc(a), f"array-API {op}", f"ArrayAPIBackend.{op} computes {vkey(ar)[:100]}, expected _xp_multi_args('{op}', *args)")
             else:
